@@ -820,7 +820,7 @@ fn main() {
     }
     if args.replay.is_none() {
         let mut rng = Rng::new(args.seed);
-        let n = args.cases.unwrap_or(if args.thorough { 9000 } else { 450 });
+        let n = args.cases.unwrap_or(if args.thorough { 5000 } else { 450 });
         for i in 0..n {
             let case = match i % 9 {
                 0 | 1 => gen_lib(&mut rng),
